@@ -322,12 +322,13 @@ def meta_tokens(text, tabs, compat):
                                      _cint(_num(c.get("phyid"))) if isinstance(c, dict) else 0) for c in cpus)
     else:
         cp = "N"
+    # the string-valued entries of ovni.require, verbatim: parsing and compatibility are decided by
+    # the Lean version model (C14), not here
     reqs = []
     if isinstance(req, dict):
-        for m, t in tabs.items():
-            v = req.get(m)
-            if isinstance(v, str) and compat(v, t["version"]):
-                reqs.append(str(t["char"]))
+        for m, v in req.items():
+            if isinstance(v, str) and m and "\x00" not in m + v:
+                reqs.append(m.encode("utf-8").hex() + "=" + (v.encode("utf-8").hex() or "E"))
     lib = isinstance(_dotget(meta, "ovni.lib.version"), str) and isinstance(_dotget(meta, "ovni.lib.commit"), str)
     return ["1", version,
             _hexs(part) if isinstance(part, str) else "N",
